@@ -174,6 +174,44 @@ fn alpha(cfg: &Cfg) -> Vec<Op> {
     v
 }
 
+/// the core of "scrolled off, trimmed, handed out" over a small alphabet, deeper: scrolls of
+/// every kind, regions, both ways of leaving for the alternate screen, through feed_str and
+/// feed(), with and without a call boundary in between
+fn alpha_core(_cfg: &Cfg) -> Vec<Op> {
+    vec![
+        t("a"),
+        c(crlf()),
+        c(lfs(3)),
+        t("bcdefgh"),
+        c(Su(None)),
+        c(Seq(vec![Cup(None, None), Dl(Some(1))])),
+        c(Decstbm(Some(1), Some(2))),
+        c(Decstbm(None, None)),
+        c(DecSet(vec![1049])),
+        c(DecRst(vec![1049])),
+        c(lfs(3)).kind(Kind::FeedChars),
+        c(DecSet(vec![1049])).kind(Kind::FeedChars),
+        c(DecRst(vec![1049])).kind(Kind::FeedChars),
+        c(Seq(vec![lfs(4), DecSet(vec![1049]), Text("x".into()), DecRst(vec![1049]), lfs(4), DecSet(vec![1049])])),
+    ]
+}
+
+fn core_part(tier: Tier) -> Part<'static, Sys> {
+    Part {
+        name: "limited-vs-unlimited-core-deep",
+        sys: &Sys,
+        cfgs: match tier {
+            Tier::Quick => cfgs(&[(2, 3)], &[Some(0), Some(2)]),
+            Tier::Thorough => cfgs(&[(2, 3), (2, 2)], &[Some(0), Some(1), Some(2), Some(10)]),
+        },
+        alphabet: &alpha_core,
+        depth: tier.pick(6, 8),
+        seconds: tier.pick(20.0, 1800.0),
+        validated: true,
+        nontrivial: Some("calls_handing_out_lines"),
+    }
+}
+
 const LIMITS: &[Option<usize>] = &[Some(0), Some(1), Some(2), Some(3), Some(10), Some(11)];
 
 macro_rules! parts {
@@ -261,6 +299,7 @@ pub fn run(ctx: &Ctx) -> Report {
     let mut rep = Report::new();
     let p = parts!(ctx.tier);
     run_part(ctx, &mut rep, &p);
+    run_part(ctx, &mut rep, &core_part(ctx.tier));
     count_sweep(ctx, &mut rep);
     rep.rule = "product exploration of (terminal with limit L, unlimited terminal) fed the same op history (no RIS, no resize; alt-screen excursions, scroll regions, DL/IL at the top row, per-char feeds); after every call on the primary screen: lines handed out so far ++ lines() == unlimited lines(), cell-for-cell incl. wrap marks; on the alternate screen nothing may be handed out; at every state TextCollector text is compared across limits and chunkings; non-trivial = calls that hand out at least one line; scroll-count-sweep: for each limit, EVERY count n = 0..=N of numbered lines fed in one call, then a non-scrolling call, then three more lines, same oracle after every call plus TextCollector".into();
     rep.assumptions = vec![
@@ -278,6 +317,9 @@ pub fn replay(ctx: &Ctx, v: &Value) -> bool {
         return rep.violations > 0;
     }
     let tier = if v["tier"] == "thorough" { Tier::Thorough } else { Tier::Quick };
+    if v["part"] == "limited-vs-unlimited-core-deep" {
+        return replay_part(ctx, &core_part(tier), v);
+    }
     let p = parts!(tier);
     replay_part(ctx, &p, v)
 }
